@@ -483,3 +483,53 @@ pub proof fn theorem_union_language(pats: Seq<Pattern>, reg0: Seq<Ast>, reg2: Se
         assert(g_acc(g_mp(m), cls, w, pats[i].token_type));
     }
 }
+
+// ---------------------------------------------------------------- END TO END through the minimizer (contract of Minimizer::minimize proved in U-mini)
+pub proof fn lemma_d_reach_cong(a: CompiledDfa, b: CompiledDfa, cls: ClsF, w: Seq<char>, t: int)
+    requires a.states == b.states
+    ensures d_reach(a, cls, w, t) <==> d_reach(b, cls, w, t)
+    decreases w.len()
+{
+    if w.len() > 0 {
+        assert forall|s: int| (d_reach(a, cls, w.drop_last(), s) && #[trigger] d_step(a, cls, s, w.last(), t)) <==> (d_reach(b, cls, w.drop_last(), s) && d_step(b, cls, s, w.last(), t)) by {
+            lemma_d_reach_cong(a, b, cls, w.drop_last(), s);
+        }
+        if d_reach(a, cls, w, t) { let s = choose|s: int| d_reach(a, cls, w.drop_last(), s) && #[trigger] d_step(a, cls, s, w.last(), t); assert(d_step(b, cls, s, w.last(), t)); }
+        if d_reach(b, cls, w, t) { let s = choose|s: int| d_reach(b, cls, w.drop_last(), s) && #[trigger] d_step(b, cls, s, w.last(), t); assert(d_step(a, cls, s, w.last(), t)); }
+    }
+}
+/// acceptance reads the state and end-state vectors only (the lookahead map filled in afterwards does not change it)
+pub proof fn lemma_d_acc_cong(a: CompiledDfa, b: CompiledDfa, cls: ClsF, w: Seq<char>, tid: TerminalID)
+    requires a.states == b.states, a.end_states == b.end_states
+    ensures d_acc(a, cls, w, tid) <==> d_acc(b, cls, w, tid)
+{
+    if d_acc(a, cls, w, tid) { let t = choose|t: int| 0 <= t < a.states@.len() && #[trigger] d_reach(a, cls, w, t) && a.end_states@[t] == (true, tid); lemma_d_reach_cong(a, b, cls, w, t); }
+    if d_acc(b, cls, w, tid) { let t = choose|t: int| 0 <= t < b.states@.len() && #[trigger] d_reach(b, cls, w, t) && b.end_states@[t] == (true, tid); lemma_d_reach_cong(a, b, cls, w, t); }
+}
+/// END TO END for one pattern, minimizer included (every lookahead automaton as CompiledLookahead::try_from_lookahead returns it):
+/// the compiled, minimized automaton accepts a non-empty word with token type tid iff the pattern matches it and tid is the pattern's token type
+pub proof fn theorem_single_pattern_minimized(n: Nfa, ast: Ast, reg: Seq<Ast>, reg2: Seq<Ast>, cls: ClsF, lf: LeafF, d0: CompiledDfa, reps: Seq<StateID>, dm: CompiledDfa, w: Seq<char>, tid: TerminalID)
+    requires
+        ids_ok(n), n.states@.len() >= 1, nfa_view(n) == thompson(ast, reg).0, th_fits(ast, reg),
+        lf_respects(lf), pre(thompson(ast, reg).1, reg2), cls_ok(cls, lf, reg2),
+        elim_ok(g_nfa(n), d0, reps), min_of(d0, dm), w.len() > 0,
+    ensures d_acc(dm, cls, w, tid) <==> (re_lang(ast, lf, w) && tid == TerminalID(n.pattern.token_type as u32))
+{
+    theorem_minimize_language(d0, dm, cls, w, tid);
+    theorem_single_pattern_language(n, ast, reg, reg2, cls, lf, d0, reps, w, tid);
+}
+/// END TO END for a mode, minimizer included: the automaton CompiledDfa::try_from_patterns returns (d: states and end states of the minimized
+/// automaton dm, lookahead map filled in afterwards) accepts a non-empty word with token type tid iff some pattern of the mode with that token
+/// type matches the word
+pub proof fn theorem_union_minimized(pats: Seq<Pattern>, reg0: Seq<Ast>, reg2: Seq<Ast>, m: MultiPatternNfa, cls: ClsF, lf: LeafF, d0: CompiledDfa, reps: Seq<StateID>, dm: CompiledDfa, d: CompiledDfa, w: Seq<char>, tid: TerminalID)
+    requires
+        mp_built(pats, reg0, m), mp_fits(pats, reg0),
+        lf_respects(lf), pre(mp_th(pats, pats.len() as int, reg0).1, reg2), cls_ok(cls, lf, reg2),
+        elim_ok(g_mp(m), d0, reps), min_of(d0, dm), d.states == dm.states, d.end_states == dm.end_states, w.len() > 0,
+    ensures
+        d_acc(d, cls, w, tid) <==> exists|i: int| 0 <= i < pats.len() && tid == tid_of(pats[i]) && #[trigger] re_lang(spec_parse(pats[i].pattern@), lf, w),
+{
+    lemma_d_acc_cong(d, dm, cls, w, tid);
+    theorem_minimize_language(d0, dm, cls, w, tid);
+    theorem_union_language(pats, reg0, reg2, m, cls, lf, d0, reps, w, tid);
+}
